@@ -1075,13 +1075,17 @@ func (p *scionPacketProcessor) processEPIC() disposition {
 		return errorDiscard("error", errMalformedPath)
 	}
 
-	isPenultimate := p.path.IsPenultimateHop()
-	isLast := p.path.IsLastHop()
+	currHF := int(p.path.PathMeta.CurrHF)
 
 	disp := p.process()
 	if disp != pForward {
 		return disp
 	}
+	if p.effectiveXover {
+		currHF++
+	}
+	isPenultimate := currHF == p.path.NumHops-2
+	isLast := currHF == p.path.NumHops-1
 
 	if isPenultimate || isLast {
 		firstInfo, err := p.path.GetInfoField(0)
